@@ -1,7 +1,9 @@
 """C18 -- re-processing, incremental loading and failed loads do not skew results.
 
   metamorphic (implementation only; this is where regressions are caught)
-      op histories (L<i> = Modules.Parse of text i, P = Modules.Process + full dump) of length <= 10 over pools of good
+      op histories (L<i> = Modules.Parse of text i, P = Modules.Process + full dump, T = a read between the runs:
+      ToEntry, Print, Namespace, InstantiatingModule, ReadOnly on every module, C = ClearEntryCache; command c18proc of
+      harness/go/c18.go = resolve.go's process command plus the reads) of length <= 10 over pools of good
       texts (random resolver schemas, typedef chains through imports, identities and identityrefs, imports whose target
       arrives later, newer revisions arriving later, submodules arriving later and superseded, equal namespaces) and bad
       texts (syntax error; rejected statement after typedefs were registered; top-level non-module with typedefs;
@@ -139,8 +141,11 @@ def fam_typedefs():
                  "  typedef t0 { type string { length 1..10; } }\n  typedef t1 { type t0 { length 2..5; } default ab; }\n")
     tb2 = module("tb", rev=D2, tds=["t0", "t1", "t9"], body=
                  "  typedef t0 { type int32 { range 1..10; } }\n  typedef t1 { type t0 { range 2..5; } }\n  typedef t9 { type t1; }\n")
-    tm = module("tm", imports=[("tb", "b", None)], tds=["t2", "loc"], body=
-                "  typedef t2 { type b:t1; units u; }\n  container c { typedef loc { type t2; } leaf l { type loc; } leaf k { type b:t0; } }\n")
+    tm = module("tm", imports=[("tb", "b", None)], tds=["t2", "tun", "loc"], body=
+                "  typedef t2 { type b:t1; units u; }\n"
+                "  typedef tun { type union { type b:t1; type int8; type union { type b:t0; type boolean; } } }\n"
+                "  leaf un { type tun; }\n  leaf-list unl { type union { type b:t0; type tun; } }\n"
+                "  container c { typedef loc { type t2; } leaf l { type loc; } leaf k { type b:t0; } }\n")
     tt = module("tt", imports=[("tm", "m", None), ("tb", "b", D1)], body=
                 "  leaf a { type m:t2; }\n  leaf b { type b:t0; }\n  leaf u { type union { type m:t2; type int8; } }\n")
     tu = module("tu", imports=[("tb", "b", None)], tds=["bad"], body=
@@ -190,10 +195,24 @@ def fam_submodules():
     sv = module("sv", imports=[("sm", "m", None)], body="  identity d-new { base m:new-id; }\n  leaf y { type m:mt; }\n")
     lone = module("s9", belongs="nobody", prefix="nb", tds=["lt"], body="  typedef lt { type string; }\n  leaf z { type lt; }\n")
     # a self-contained pair of revisions: the superseded one stays clean, so that its identities remain in the dump
-    vm = module("vm", includes=[("vs", None)], body="  leaf v { type string; }\n")
-    v1 = module("vs", belongs="vm", prefix="vm", rev=D1, body="  identity v-old;\n  identity v-child { base v-old; }\n")
-    v2 = module("vs", belongs="vm", prefix="vm", rev=D2, body="  identity v-new;\n")
-    return [sm, s1, s1b, s2, su, sv, lone, gm, vm, v1, v2]
+    vm = module("vm", includes=[("vs", None)], tds=["vun", "vir"], body=
+                "  leaf v { type string; }\n  typedef vun { type union { type vt; type int8; } }\n  leaf vu { type vun; }\n"
+                "  typedef vir { type identityref { base v-common; } }\n  leaf vi { type vir; }\n")
+    v1 = module("vs", belongs="vm", prefix="vm", rev=D1, tds=["vt"], body=
+                "  identity v-old;\n  identity v-child { base v-old; }\n  identity v-common;\n"
+                "  typedef vt { type string; }\n  container from-vs1 { leaf a { type vt; } }\n")
+    v2 = module("vs", belongs="vm", prefix="vm", rev=D2, tds=["vt"], body=
+                "  identity v-new;\n  identity v-common;\n  identity v-derived { base v-common; }\n"
+                "  typedef vt { type uint32; }\n  container from-vs2 { leaf b { type vt; } }\n")
+    # a user of vm's definitions through an import: typedefs over identityref / union with prefixed referents
+    vu = module("vx", imports=[("vm", "m", None)], tds=["xr", "xu"], body=
+                "  typedef xr { type identityref { base m:v-common; } }\n  leaf r { type xr; }\n"
+                "  typedef xu { type union { type m:vt; type m:vun; } }\n  leaf u { type xu; }\n"
+                "  identity x-derived { base m:v-common; }\n")
+    # a module whose import arrives late: Process fails in its first stage while the includes of the others are bound
+    wa = module("wa", imports=[("wl", "l", None)], body="  leaf q { type l:lt; }\n")
+    wl = module("wl", tds=["lt"], body="  typedef lt { type string; }\n")
+    return [sm, s1, s1b, s2, su, sv, lone, gm, vm, v1, v2, vu, wa, wl]
 
 
 def fam_chains():
@@ -309,7 +328,9 @@ def gen_ops(rnd, texts, maxlen=10):
         x = rnd.random()
         if x < 0.3 and ops:
             ops.append("P")
-        elif x < 0.75:
+        elif x < 0.42 and ops:
+            ops.append("T" if rnd.random() < 0.85 else "C")      # reads between the runs: ToEntry & co., ClearEntryCache
+        elif x < 0.78:
             ops.append("L%d" % rnd.randrange(ngood))
         else:
             ops.append("L%d" % rnd.randrange(len(texts)))
@@ -321,7 +342,8 @@ def gen_ops(rnd, texts, maxlen=10):
 CORPUS = dict(
     namespaces=["L0,P,L1,P,P", "L0,L2,P,L1,P", "L1,P,L0,P"],                               # D55 byNS
     submodules=["L0,L7,L1,L3,P,L2,L4,P", "L0,L7,L1,L3,P,L2,P,P", "L0,P,L1,P,L3,P,L7,P",     # D57, D62, late submodules
-                "L4,L5,P,L0,L2,P,L1,L3,L7,P", "L6,P,L0,L2,P", "L8,L9,P,L10,P,P"],
+                "L4,L5,P,L0,L2,P,L1,L3,L7,P", "L6,P,L0,L2,P", "L8,L9,P,L10,P,P",
+                "L8,L9,L11,P,L10,P,P", "L8,L9,L12,P,T,L13,P,P", "L0,L2,L12,P,T,L13,P", "L8,L10,L12,T,P,T,C,T,L13,T,P"],   # kept typedefs, reads
     typedefs=["L0,L2,L3,P,L1,P", "L4,P,L0,P,L1,P", "L3,P,L2,P,L0,P,P"],                    # D56 re-binding, late targets
     identities=["L2,P,L0,P,L1,P", "L3,L1,P,L0,P,P", "L0,L1,L2,L3,P,P"],                    # D56 memoised errors, D42
     chains=["L0,L1,P,L2,P,L3,P", "L4,L0,P,L1,P", "L2,L0,P,L3,P,L1,P"],                      # failing include, D41
@@ -358,7 +380,8 @@ def corpus_cases():
 
 # ------------------------------------------------------------------------------------------------ running
 def process_line(texts, ops, opts="-"):
-    toks = ["process", opts, ",".join(ops), str(len(texts))]
+    """command c18proc of harness/go/c18.go: resolve.go's process command plus read operations (T, C) between runs"""
+    toks = ["c18proc", opts, ",".join(ops), str(len(texts))]
     for t in texts:
         toks += [hx(t["name"]), hx(t["src"])]
     return " ".join(toks)
@@ -386,7 +409,7 @@ def split_history(ops, loads):
     for op in ops:
         if op == "P":
             out.append(list(acc))
-        else:
+        elif op.startswith("L"):
             if loads[li] == "ok":
                 acc.append(int(op[1:]))
             li += 1
@@ -422,7 +445,8 @@ def first_diff(a, b, path=""):
 class Case:
     def __init__(self, fams, texts, ops, opts="-", hops=None):
         self.fams, self.texts, self.ops, self.opts = fams, texts, ops, opts
-        self.hops = hops if hops is not None else list(ops)       # the history with namespace lookups (c18hist only)
+        # the history without read operations, with namespace lookups (c18hist only)
+        self.hops = hops if hops is not None else [o for o in ops if o not in ("T", "C")]
 
     def replay(self):
         return dict(families=self.fams, ops=self.ops, hops=self.hops, opts=self.opts, texts=self.texts)
@@ -675,6 +699,8 @@ def with_ns_ops(rnd, c):
     nss = sorted({it["ns"] for t in c.texts for it in t["items"] if it["good"] and it["ns"]}) + ["urn:none"]
     out = []
     for op in c.ops:
+        if op in ("T", "C"):
+            continue                      # read operations exist in c18proc only
         out.append(op)
         if rnd.random() < 0.3:
             out.append("N" + hx(rnd.choice(nss)))
